@@ -87,7 +87,8 @@ package main
 // "the leaf of the first verified chain names `user`, the peer address lies inside its netblocks, `user` is an automation identity and its key is not deny-listed"
 //@ opaque func ipCertUser(state *RuntimeState, chains [][]*x509.Certificate, remoteAddr string, user string) bool = len(chains) > 0 && len(chains[0]) > 0 && user == chains[0][0].Subject.CommonName && ipInCertNetblocks(chains[0][0], remoteAddr) && automationUser(state, user) && !deniedFP(state, keyFP(chains[0][0].PublicKey))
 //@ ghost func passwordAccepted(checker pwauth.PasswordAuthenticator, user string, password string) bool
-//@ ghost var ghostPwTokens int
+// a token taken from the global password rate limiter and not yet spent on a back-end lookup (C14)
+//@ ghost var ghostPwToken bool
 
 //@ pure func viaCookie(state *RuntimeState, ai *authInfo) bool = (exists tok string :: verifiedByKeymaster(state, tok) && claimsAuthJWT(tok).TokenType == "keymaster_auth" && claimsAuthJWT(tok).Issuer == state.idpGetIssuer() && claimsAuthJWT(tok).Subject == ai.Username && claimsAuthJWT(tok).AuthType == ai.AuthType && claimsAuthJWT(tok).Expiration * 1000000000 == timeNanos(ai.ExpiresAt) && timeNanos(ai.ExpiresAt) >= nowNanos())
 //@ pure func viaTLS(state *RuntimeState, r *http.Request, ai *authInfo) bool = r.TLS != nil && ((ai.AuthType == AuthTypeKeymasterX509 && kmCertUser(state, r.TLS.VerifiedChains, ai.Username, timeNanos(ai.IssuedAt))) || (ai.AuthType & AuthTypeIPCertificate != 0 && ipCertUser(state, r.TLS.VerifiedChains, r.RemoteAddr, ai.Username)))
@@ -129,10 +130,10 @@ package main
 //@   assume ret1 == nil ==> ret0 == automationUser(state, username)
 //@ func (*RuntimeState).checkPasswordAttemptLimit
 //@   inline always
-//@   ghostset ghostPwTokens int = ghostPwTokens + 1 if ret0 == nil
+//@   ghostset ghostPwToken bool = true if ret0 == nil
 //@ func checkUserPassword
-//@   requires ghostPwTokens >= 1                                                                          #C14.limiter-first @C14
-//@   ghostset ghostPwTokens int = ghostPwTokens - 1
+//@   requires ghostPwToken                                                                                #C14.limiter-first @C14
+//@   ghostset ghostPwToken bool = false
 //@   ensures ret0 ==> ret1 == nil && passwordAccepted(passwordChecker, username, password)                  #C07.backend-verdict @C07
 //@   ensures ret0 ==> passwordChecker != nil && backendAccepts(passwordChecker, username, password)
 
